@@ -37,6 +37,7 @@ COUNTS = {"quick": 1600, "thorough": 24000}
 TRUSTED = [
     "matplotlib: Axes.scatter stores the x/y/s/c/marker/zorder/alpha/edgecolors/linewidths it is given in one PathCollection (read back through get_offsets/get_sizes/get_facecolors/get_edgecolors/get_linewidths/get_zorder/get_paths); colour-name conversion, marker rendering, imshow(origin='lower') putting array row r at height r",
     "Altair: Chart.to_dict() reports the rows given to alt.Data(values=...) unchanged",
+    "solara/reacton: solara.render runs the component function and its effects once (used for SpaceMatplotlib, SpaceAltair, ModelCreator; the Axes / Chart are taken from the post_process hook)",
     "networkx spring_layout(seed=0) is deterministic; the model keeps a node's label for its layout position",
     "numpy boolean masking / np.unique / set() over the marker and z-order arrays (the model keeps the distinct values; the order of the scatter calls is not compared)",
     "positions are exact integers (hex grids in units of sqrt(3)/2 and 1/2); IEEE rounding of the hex transform is checked with tolerance 1e-6, not modelled",
@@ -52,12 +53,14 @@ RULE = ("40% space scenarios: one of 12 space classes (4 mesa.space grids, 3 dis
         "non-contiguous node labels and possibly no edges, Voronoi, 2 continuous spaces), sizes 1-5, 0-6 agents with several per cell, "
         "agents never placed, a pool of 0-4 portrayal dict *objects* shared between agents (keys color/size/marker/zorder, the optional "
         "alpha/edgecolors/linewidths under an all/none/some policy, unsupported keys), interleaved place/move/remove/dict-rewrite/"
-        "re-portray ops and observations collect_agent_data / draw_space (Agg) / Altair _draw_grid / heap dump / property layer "
+        "re-portray ops and observations collect_agent_data / draw_space (Agg) / Altair _draw_grid / the solara components SpaceMatplotlib "
+        "and SpaceAltair / heap dump / property layer "
         "(colormap or colour mode, explicit or automatic range), including observations of the space without agents; "
         "60% parameter scenarios: 1-3 generated __init__ signatures (instance parameter named self/this, positional-only, missing; "
         "positional-only, positional-or-keyword, *args, keyword-only, **kwargs under any name, defaults) each with 2-6 key sets "
         "(required names mostly present, extras, the instance's name, positional-only names) through _check_model_params, "
-        "ModelCreator (solara.render) and split_model_params; non-trivial = an observation of >= 2 agents or a check against >= 3 "
+        "ModelCreator (solara.render) and split_model_params; plus, on every run, the exhaustive enumeration of all signature shapes "
+        "with <= 3 parameters after the instance parameter x all key subsets (376 signatures, 6.1k checks); non-trivial = an observation of >= 2 agents or a check against >= 3 "
         "parameters; distinct = distinct op-line sequences (sha1)")
 
 
@@ -92,6 +95,12 @@ def generate(rng, tier, count):
         yield V.gen_scenario(rng, tier)
 
 
+def builtin_corpus():
+    """small-scope exhaustive part, run on every check: all signature shapes with <= 3 parameters after the
+    instance parameter x all key subsets"""
+    return V.enum_signatures(3)
+
+
 run_impl = V.run_impl
 oracle = V.oracle
 
@@ -108,9 +117,9 @@ def nontrivial(sc, obs):
         w = l.split()
         if w[0] in ("collect", "collectd") and re.match(r"ok n=([2-9]|\d\d)", o):
             return True
-        if w[0] == "draw" and sum(int(n) for n in re.findall(r" n=(\d+)", o)) >= 2:
+        if w[0] in ("draw", "drawc") and sum(int(n) for n in re.findall(r" n=(\d+)", o)) >= 2:
             return True
-        if w[0] == "altair" and o.count(" | ") >= 2:
+        if w[0] in ("altair", "altairc") and o.count(" | ") >= 2:
             return True
     if sc.lines[0] == "scenario params":
         return any(l.startswith("sig ") and len(l.split()) >= 4 for l in sc.lines)
@@ -130,14 +139,12 @@ def tags(sc, obs):
                 placed += 1
             if w[0] == "remove" and o == "ok":
                 placed -= 1
-            if w[0] in ("collect", "collectd", "draw", "altair"):
+            if w[0] in ("collect", "collectd", "draw", "drawc", "altair", "altairc"):
                 if placed == 0:
                     yield "branch:observe-empty-space"
                 if o.startswith("err"):
                     yield "result:" + o
-            if w[0] == "draw" and " n=0" in o:
-                yield "branch:empty-scatter-group"
-            if w[0] == "draw" and o.count(" | ") >= 2:
+            if w[0] in ("draw", "drawc") and o.count(" | ") >= 2:
                 yield "branch:several-scatter-groups"
             if w[0] in ("collect", "collectd") and "ign=-" not in o and o.startswith("ok"):
                 yield "branch:ignored-fields-warning"
